@@ -1,27 +1,12 @@
-import Std.Data.HashMap
 import Percival.Driver.Loop
-import Percival.Model.NetIO
-import Percival.Model.Connect
-/-! `pmodel netio`: line protocol for network_read/write/accept/connect (C06).  Driver code. -/
+import Percival.Model.NetIOStep
+/-! `pmodel netio`: line protocol for network_read/write/accept/connect (C06).  Thin by construction: `parse`
+turns a line into a typed `NetIOStep.Op`, `Model.NetIOStep.stepOp` (the function `Properties/C06.lean` speaks
+about) does everything else, `render` prints its typed output. -/
 namespace Percival.Driver.Netio
-open Percival.Driver Percival.Model Percival.Model.NetIO
+open Percival.Driver Percival.Model Percival.Model.NetIO Percival.Model.NetIOStep
 
-structure Fd where
-  rq : List Ans := []
-  sq : List Ans := []
-  aq : List AccAns := []
-  rd : Option ReadSt := none
-  wr : Option WriteSt := none
-  acc : Bool := false
-
-structure St where
-  fds : Array Fd := Array.replicate 64 {}
-  conn : Option (Bool × Connect.St) := none     -- (timeout enabled, state)
-  connEvs : List Connect.Ev := []              -- events since the last spin (L2)
-  nextfd : Nat := 20
-
-def getFd (s : St) (i : Nat) : Fd := s.fds.getD i {}
-def setFd (s : St) (i : Nat) (f : Fd) : St := { s with fds := s.fds.setIfInBounds i f }
+/-! ## text → typed op -/
 
 def parseAns (t : String) : Option Ans :=
   match t.toList with
@@ -43,6 +28,33 @@ def parseAcc (t : String) : Option AccAns :=
   | ['x'] => some .hard
   | _ => none
 
+/-- unreadable items are dropped, as the harness drops them -/
+def parseItems {α : Type} (p : String → Option α) (items : String) : List α :=
+  (items.splitOn ",").filterMap p
+
+def parseOutcomes (s : String) : List Connect.AddrOutcome :=
+  if s = "-" then [] else s.toList.filterMap fun c =>
+    if c = 'F' then some .failNow else if c = 'S' then some .success
+    else if c = 'E' then some .asyncFail else if c = 'H' then some .hang else none
+
+def parseWhich : String → Option Which
+  | "r" => some .r | "w" => some .w | "a" => some .a | _ => none
+
+def parse : List String → Option Op
+  | ["read", fd, buflen, minlen] => do pure (.read (← fd.toNat?) (← buflen.toNat?) (← minlen.toNat?))
+  | ["write", fd, minlen, hex] => do pure (.write (← fd.toNat?) (← minlen.toNat?) (← bytesOfHex hex))
+  | ["accept", fd] => do pure (.accept (← fd.toNat?))
+  | ["krecv", fd, items] => do pure (.krecv (← fd.toNat?) (parseItems parseAns items))
+  | ["ksend", fd, items] => do pure (.ksend (← fd.toNat?) (parseItems parseAns items))
+  | ["kacc", fd, items] => do pure (.kacc (← fd.toNat?) (parseItems parseAcc items))
+  | ["cancel", which, fd] => do pure (.cancel (← parseWhich which) (← fd.toNat?))
+  | ["connect", timeo, outcomes] => some (.connect (timeo ≠ "-") (parseOutcomes outcomes))
+  | ["cancelc"] => some .cancelc
+  | ["spin"] => some .spin
+  | _ => none
+
+/-! ## typed output → text -/
+
 def showCalls (l : List (Nat × Int)) : String :=
   String.join (l.reverse.map fun p => s!"{p.1}>{p.2},")
 
@@ -51,119 +63,32 @@ def showEv : Connect.Ev → String
   | .close fd => s!"close{fd},"
   | .cb _ => ""
 
-def parseOutcomes (s : String) : List Connect.AddrOutcome :=
-  if s = "-" then [] else s.toList.filterMap fun c =>
-    if c = 'F' then some .failNow else if c = 'S' then some .success
-    else if c = 'E' then some .asyncFail else if c = 'H' then some .hang else none
+def showCompletion : Completion → String
+  | .read fd n data => s!"r{fd}:{n}:{hexOfBytes data}"
+  | .readFuel fd => s!"r{fd}:FUEL"
+  | .write fd n sent => s!"w{fd}:{n}:{hexOfBytes sent}"
+  | .writeFuel fd => s!"w{fd}:FUEL"
+  | .accept fd v => s!"a{fd}:{v}"
+  | .connect v => s!"c:{v}"
+
+def showTrace : Trace → String
+  | .r fd calls => s!"r{fd}[{showCalls calls}]"
+  | .w fd calls => s!"w{fd}[{showCalls calls}]"
+  | .conn evs => s!"conn[{String.join (evs.map showEv)}]"
+
+def render : Out → String
+  | .ok => "ok"
+  | .busy => "busy"
+  | .none => "none"
+  | .badFd => "bad-op"
+  | .spin l1 l2 =>
+      let a := if l1.isEmpty then "-" else " ".intercalate (l1.map showCompletion)
+      if l2.isEmpty then s!"{a} |" else s!"{a} | {" ".intercalate (l2.map showTrace)}"
 
 def step (s : St) (toks : List String) : St × String :=
-  match toks with
-  | ["read", fd, buflen, minlen] =>
-      match fd.toNat?, buflen.toNat?, minlen.toNat? with
-      | some fd, some bl, some ml =>
-        let f := getFd s fd
-        if f.rd.isSome then (s, "busy") else (setFd s fd { f with rd := some (readInit bl ml) }, "ok")
-      | _, _, _ => (s, "bad-op")
-  | ["write", fd, minlen, hex] =>
-      match fd.toNat?, minlen.toNat?, bytesOfHex hex with
-      | some fd, some ml, some buf =>
-        let f := getFd s fd
-        if f.wr.isSome then (s, "busy") else (setFd s fd { f with wr := some (writeInit buf ml) }, "ok")
-      | _, _, _ => (s, "bad-op")
-  | ["accept", fd] =>
-      match fd.toNat? with
-      | some fd =>
-        let f := getFd s fd
-        if f.acc then (s, "busy") else (setFd s fd { f with acc := true }, "ok")
-      | none => (s, "bad-op")
-  | ["krecv", fd, items] =>
-      match fd.toNat? with
-      | some fd => let f := getFd s fd
-                   (setFd s fd { f with rq := f.rq ++ (items.splitOn ",").filterMap parseAns }, "ok")
-      | none => (s, "bad-op")
-  | ["ksend", fd, items] =>
-      match fd.toNat? with
-      | some fd => let f := getFd s fd
-                   (setFd s fd { f with sq := f.sq ++ (items.splitOn ",").filterMap parseAns }, "ok")
-      | none => (s, "bad-op")
-  | ["kacc", fd, items] =>
-      match fd.toNat? with
-      | some fd => let f := getFd s fd
-                   (setFd s fd { f with aq := f.aq ++ (items.splitOn ",").filterMap parseAcc }, "ok")
-      | none => (s, "bad-op")
-  | ["cancel", which, fd] =>
-      match fd.toNat? with
-      | some fd =>
-        let f := getFd s fd
-        if which = "r" && f.rd.isSome then (setFd s fd { f with rd := none }, "ok")
-        else if which = "w" && f.wr.isSome then (setFd s fd { f with wr := none }, "ok")
-        else if which = "a" && f.acc then (setFd s fd { f with acc := false }, "ok")
-        else (s, "none")
-      | none => (s, "bad-op")
-  | ["connect", timeo, outcomes] =>
-      if s.conn.isSome then (s, "busy") else
-      let addrs := (parseOutcomes outcomes).take 16
-      let (evs, st, fd') := Connect.tryconnect addrs 0 s.nextfd
-      ({ s with conn := some (timeo ≠ "-", st), connEvs := s.connEvs ++ evs, nextfd := fd' }, "ok")
-  | ["cancelc"] =>
-      match s.conn with
-      | some (_, st) => ({ s with conn := none, connEvs := s.connEvs ++ Connect.cancel st }, "ok")
-      | none => (s, "none")
-  | ["spin"] => Id.run do
-      let mut st := s
-      let mut l1 : List String := []
-      let mut l2 : List String := []
-      for fd in [0:64] do
-        let mut f := getFd st fd
-        let mut rtrace := ""
-        let mut wtrace := ""
-        match f.rd with
-        | some r =>
-          match runRead (weight f.rq + 2) r f.rq with
-          | .done n r' q =>
-              l1 := l1 ++ [s!"r{fd}:{n}:{hexOfBytes (if n > 0 then r'.got else [])}"]
-              rtrace := showCalls r'.calls
-              f := { f with rd := none, rq := q }
-          | .pending r' q =>
-              rtrace := showCalls r'.calls
-              f := { f with rd := some { r' with calls := [] }, rq := q }
-          | .fuel => l1 := l1 ++ [s!"r{fd}:FUEL"]
-        | none => pure ()
-        match f.wr with
-        | some w =>
-          match runWrite (weight f.sq + 2) w f.sq with
-          | .done n w' q =>
-              l1 := l1 ++ [s!"w{fd}:{n}:{hexOfBytes w'.sent}"]
-              wtrace := showCalls w'.calls
-              f := { f with wr := none, sq := q }
-          | .pending w' q =>
-              wtrace := showCalls w'.calls
-              f := { f with wr := some { w' with calls := [] }, sq := q }
-          | .fuel => l1 := l1 ++ [s!"w{fd}:FUEL"]
-        | none => pure ()
-        if f.acc then
-          match runAccept f.aq with
-          | (some v, q) =>
-              l1 := l1 ++ [s!"a{fd}:{v}"]
-              f := { f with acc := false, aq := q }
-          | (none, q) => f := { f with aq := q }
-        if rtrace ≠ "" then l2 := l2 ++ [s!"r{fd}[{rtrace}]"]
-        if wtrace ≠ "" then l2 := l2 ++ [s!"w{fd}[{wtrace}]"]
-        st := setFd st fd f
-      match st.conn with
-      | some (timeo, cst) =>
-        let (evs, cst', fd') := Connect.spin timeo 20 cst st.nextfd
-        let cbs := evs.filterMap fun e => match e with | .cb v => some s!"c:{v}" | _ => none
-        l1 := l1 ++ cbs
-        st := { st with conn := (if cst' == .finished then none else some (timeo, cst')),
-                        connEvs := st.connEvs ++ evs, nextfd := fd' }
-      | none => pure ()
-      let ctrace := String.join (st.connEvs.map showEv)
-      if ctrace ≠ "" then l2 := l2 ++ [s!"conn[{ctrace}]"]
-      st := { st with connEvs := [] }
-      let a := if l1.isEmpty then "-" else " ".intercalate l1
-      return (st, if l2.isEmpty then s!"{a} |" else s!"{a} | {" ".intercalate l2}")
-  | _ => (s, "bad-op")
+  match parse toks with
+  | some op => let r := stepOp s op; (r.1, render r.2)
+  | none => (s, "bad-op")
 
 def main (_args : List String) : IO UInt32 := loop ({} : St) step
 
